@@ -362,6 +362,27 @@ func classifyMapRange(c *core.Ctx, s *mapRangeSite) (idiom string, bad string) {
 					if _, isSlice := o.Type().Underlying().(*types.Slice); isSlice {
 						bad = "an outer slice is assigned in map order: " + core.ExprString(lx)
 					}
+					// an outer string rewritten from itself and the entry being visited (s = strings.ReplaceAll(s, k, v),
+					// s += k) is a fold whose result depends on the order of the entries
+					if b, isBasic := o.Type().Underlying().(*types.Basic); isBasic && b.Info()&types.IsString != 0 {
+						usesSelf, usesEntry := x.Tok == token.ADD_ASSIGN, false
+						if i < len(x.Rhs) {
+							ast.Inspect(x.Rhs[i], func(m ast.Node) bool {
+								if id, ok := m.(*ast.Ident); ok {
+									if core.ObjOf(inf, id) == o {
+										usesSelf = true
+									}
+									if local[core.ObjOf(inf, id)] {
+										usesEntry = true
+									}
+								}
+								return true
+							})
+						}
+						if usesSelf && usesEntry {
+							bad = "the outer string " + core.ExprString(lx) + " is rewritten from itself and the entry visited, entry by entry in map order: the result depends on the order (a replacement applied before or after another one that produces its pattern)"
+						}
+					}
 				case *ast.SelectorExpr:
 					// field stores into outer objects: accept only error/flag-like scalars
 				}
